@@ -444,7 +444,13 @@ fn outside_sig(name: &str, args: &[DataType], vals: &[Value], y: &Value) -> Stri
             kinds.iter().zip(args.iter()).any(|(k, t)| *k == K::Text && matches!(strip(t), DataType::Float(_)))
         })
         .unwrap_or(false);
-    let float_or_int_to_text = float_or_int_to_text || float_as_text_arg;
+    // a text holding "-0" can only come from rendering a negative zero
+    let negative_zero_text = match y {
+        Value::Text(t) => t.contains("-0"),
+        Value::Optional(o) => matches!(o.as_deref(), Some(Value::Text(t)) if t.contains("-0")),
+        _ => false,
+    };
+    let float_or_int_to_text = float_or_int_to_text || float_as_text_arg || negative_zero_text;
     let mixed_numeric = {
         let ints = args.iter().filter(|t| matches!(strip(t), DataType::Integer(_) | DataType::Boolean(_))).count();
         let floats = args.iter().filter(|t| matches!(strip(t), DataType::Float(_))).count();
@@ -632,8 +638,16 @@ fn aggregate_case(i: u64, p: &Params, rep: &mut Report) {
                     }).fold(0.0f64, f64::max);
                     let yv = match crate::oracle::member::num_of(&y) { Some(crate::oracle::member::Num::F(f)) => f.abs(), _ => 0.0 };
                     let err = 1e-12 * m * m * (vals.len() as f64 + 1.0);
-                    let err = if matches!(a, Aggregate::Std | Aggregate::StdDistinct) { err.sqrt() } else { err };
-                    yv <= err
+                    let is_std = matches!(a, Aggregate::Std | Aggregate::StdDistinct);
+                    // the value itself is within the rounding error of its own computation, or it exceeds the
+                    // upper end of the range by less than that error (for std: y^2 - max^2 <= err)
+                    let upper = match strip(t) {
+                        DataType::Float(f) => f.max().copied(),
+                        _ => None,
+                    };
+                    let small = yv <= if is_std { err.sqrt() } else { err };
+                    let just_above = upper.map_or(false, |u| yv > u && if is_std { yv * yv - u * u <= err } else { yv - u <= err });
+                    small || just_above
                 };
                 if cancellation {
                     rep.count("agg_std_var_within_cancellation_error(not judged)");
